@@ -5,6 +5,7 @@ import (
 	"go/constant"
 	"go/token"
 	"go/types"
+	"hash/fnv"
 	"sort"
 	"strings"
 	"sync"
@@ -2048,4 +2049,145 @@ func (m *mach) recentPath() string {
 		names = names[len(names)-10:]
 	}
 	return strings.Join(names, " → ")
+}
+
+// mFingerprint renders everything reachable from v (pointers followed, cycles and sharing shown by
+// numbering objects in order of first visit) as a hash: two fingerprints of one object taken before and
+// after a call differ exactly if the call changed some reachable, visible memory cell (slice elements
+// beyond the length are not visible).
+func mFingerprint(v mv) string {
+	h := fnv.New128a()
+	seen := map[*mv]int{}
+	seenMap := map[*mMap]int{}
+	var walk func(v mv, depth int)
+	w := func(s string) { h.Write([]byte(s)); h.Write([]byte{0}) }
+	walk = func(v mv, depth int) {
+		if depth > 200 {
+			w("deep")
+			return
+		}
+		switch t := v.(type) {
+		case nil:
+			w("unset")
+		case bool, int64, float64:
+			w(fmt.Sprintf("%T%v", t, t))
+		case string:
+			w("s" + t)
+		case mNilT:
+			w("nil")
+		case *mSym:
+			w("sym" + t.name)
+		case mIface:
+			if t.t != nil {
+				w("i" + t.t.String())
+			}
+			walk(t.v, depth+1)
+		case mTuple:
+			w(fmt.Sprintf("tuple%d", len(t)))
+			for _, x := range t {
+				walk(x, depth+1)
+			}
+		case mSlice:
+			w(fmt.Sprintf("slice%d", len(t.arr)))
+			for _, x := range t.arr {
+				walk(x, depth+1)
+			}
+		case mStruct:
+			w(fmt.Sprintf("struct%d", len(t)))
+			for _, x := range t {
+				walk(x, depth+1)
+			}
+		case mArray:
+			w(fmt.Sprintf("array%d", len(t)))
+			for _, x := range t {
+				walk(x, depth+1)
+			}
+		case *mv:
+			if t == nil {
+				w("nilptr")
+				return
+			}
+			if id, ok := seen[t]; ok {
+				w(fmt.Sprintf("ref%d", id))
+				return
+			}
+			seen[t] = len(seen)
+			w("ptr")
+			walk(*t, depth+1)
+		case *mMap:
+			if t == nil {
+				w("nilmap")
+				return
+			}
+			if id, ok := seenMap[t]; ok {
+				w(fmt.Sprintf("mapref%d", id))
+				return
+			}
+			seenMap[t] = len(seenMap)
+			keys := append([]string{}, t.keys...)
+			sort.Strings(keys)
+			w(fmt.Sprintf("map%d", len(keys)))
+			for _, k := range keys {
+				w(k)
+				walk(t.v[k], depth+1)
+			}
+		case *mBuilder:
+			w("builder")
+			for _, p := range t.parts {
+				walk(p, depth+1)
+			}
+		case *mCat:
+			w("cat")
+			for _, p := range t.parts {
+				walk(p, depth+1)
+			}
+		case *mClosure:
+			w("closure" + t.fn.String())
+			for _, e := range t.env {
+				walk(e, depth+1)
+			}
+		case *ssa.Function:
+			w("func" + t.String())
+		default:
+			w(fmt.Sprintf("%T", v))
+		}
+	}
+	walk(v, 0)
+	return fmt.Sprintf("%x/%d", h.Sum(nil), len(seen))
+}
+
+// mFieldFingerprints: the fingerprint of every field of the struct v points to (nil if v is no such pointer).
+func mFieldFingerprints(v mv) []string {
+	p, ok := v.(*mv)
+	if !ok || p == nil {
+		return nil
+	}
+	st, ok := (*p).(mStruct)
+	if !ok {
+		return nil
+	}
+	out := make([]string, len(st))
+	for i, f := range st {
+		out[i] = mFingerprint(f)
+	}
+	return out
+}
+
+// changedFields names the fields of struct type t whose fingerprints differ.
+func changedFields(t types.Type, before, after []string) []string {
+	if p, ok := t.Underlying().(*types.Pointer); ok {
+		t = p.Elem()
+	}
+	st, _ := t.Underlying().(*types.Struct)
+	var out []string
+	for i := range before {
+		if i < len(after) && before[i] != after[i] {
+			name := fmt.Sprintf("#%d", i)
+			if st != nil && i < st.NumFields() {
+				name = st.Field(i).Name()
+			}
+			out = append(out, name)
+		}
+	}
+	return out
 }
